@@ -253,8 +253,9 @@ def rand_slice(r, pw, w, allow_reverse=True):
 DEVS = [("Mos", 4), ("R", 2), ("C", 2), ("Bjt", 3), ("D", 2), ("Res3", 3)]
 
 
-def gen_design(r, size=2, refs=True, ncs=True, arrays=True, nested=True):
+def gen_design(r, size=2, refs=True, ncs=True, arrays=True, nested=True, devs=None):
     """A valid hierarchical design of the core fragment. `size` scales modules/instances/widths."""
+    devs = devs or DEVS
     maxw = r.choice([1, 2, 3, 4]) if size <= 2 else r.choice([2, 4, 6, 8])
     exts = []
     for k in range(r.choice([0, 1, 1, 2])):
@@ -279,7 +280,7 @@ def gen_design(r, size=2, refs=True, ncs=True, arrays=True, nested=True):
             elif exts and u < 0.6:
                 of = ["ext", r.randrange(len(exts)), r.randint(1, 3)]
             else:
-                of = ["prim", r.choice(DEVS)[0], r.randint(1, 3)]
+                of = ["prim", r.choice(devs)[0], r.randint(1, 3)]
             n = r.choice([2, 2, 3]) if arrays and r.random() < 0.2 else 0
             md["insts"].append(dict(name=f"i{ii}", n=n, of=of, conns=[]))
         # connections
